@@ -12,3 +12,4 @@ import CtyModel.Props.C15
 import CtyModel.Props.C13
 import CtyModel.Props.C06
 import CtyModel.Props.C20
+import CtyModel.Props.C01
